@@ -476,6 +476,7 @@ def random_file_case(rng):
     syms = ["A", "B", "C", "Dd", "E_1"]
     lines = ["module M", "[deprecated] struct D {}"]
     lint_probes = []
+    ctx_doc = [0]
     depth_stack = []  # per open #if: seen_else
 
     def expr():
@@ -511,8 +512,16 @@ def random_file_case(rng):
                 lint_probes.append((0, k, len(ind) + len("struct L%d { f: " % k) + 1, "Deprecated"))
             else:
                 lines.append(ind + "struct L%d {} // é中文 #if A" % k)
-        elif r < 0.42:
+        elif r < 0.38:
             lines.append(rng.choice(["", "  ", "// #if A inside a comment is not first on its line? it is not a directive here"]))
+        elif r < 0.42:
+            # a doc-comment line with a link that cannot be resolved: directives (and removed lines) may separate it from the other
+            # lines of its comment and from the definition it documents; the lint is reported at the link's own line and column
+            ind = rng.choice(["", "  ", "\t", "    "])
+            head = ind + "///" + rng.choice([" ", "  ", "\t", " é中 ", " see "]) + "{@link "
+            lines.append(head + "Missing%d}" % k + rng.choice(["", " tail", " é", " {@link AlsoMissing%d}" % k]))
+            lint_probes.append((0, k, len(head) + 1, "BrokenDocLink"))
+            ctx_doc[0] += 1
         elif r < 0.55:
             lines.append(directive(rng.choice(["define ", "undef "]) + rng.choice(syms)))
         elif r < 0.72 and len(depth_stack) < 5:
@@ -531,8 +540,10 @@ def random_file_case(rng):
     while depth_stack:
         lines.append(directive("endif"))
         depth_stack.pop()
+    if ctx_doc[0]:
+        lines.append("struct L%d {}" % (len(lines) + 1))     # whatever doc comment is still pending documents this one
     defines = tuple(s for s in syms if rng.random() < 0.4)
-    case = {"files": [lines], "defines": defines, "extra_ok_codes": ("Deprecated",), "lint_probes": lint_probes}
+    case = {"files": [lines], "defines": defines, "extra_ok_codes": ("Deprecated", "BrokenDocLink"), "lint_probes": lint_probes}
     # garbage inside regions the reference says are removed (must never reach the Slice lexer)
     ref = preproc.preprocess(lines, defines)
     if ref[0] == "ok" and rng.random() < 0.5:
